@@ -285,7 +285,10 @@ def run_load(case, ctx):
             for i in range(pos, pos + ln):
                 c.router[i] = (1 << (i % 24), i, 0xffffffff, app, 0)
         c.rtr_fail = case["rtr_fail"]
-    m.finalise()
+    if case["buf"] % 8 == 0 or len(case["holes"]) % 2:
+        m.diversify(len(case["holes"]))     # chips disagree on sv pointers
+    else:
+        m.finalise()
     r = M.Rig(m)
     mc = r.mc
     nt = False
@@ -390,7 +393,7 @@ def run_load(case, ctx):
                       ((base + i_,) + got[:4] + (i_, routebits(route), key,
                                                  mask, app)), **where)
             for a, ln in ch.writes:
-                check(M.SDRAM_SYS <= a and a + ln <= M.SDRAM_SYS + 16 * n,
+                check(ch.sdram_sys <= a and a + ln <= ch.sdram_sys + 16 * n,
                       "write-outside-staging-buffer",
                       "chip %r [%#x, %#x)" % (xy, a, a + ln), **where)
             if n >= 2 and any(before[xy][i_] is not None
